@@ -83,3 +83,72 @@ Proof.
     apply Nat.ltb_lt in EB.
     apply (succeeds_when_possible tries pay cin hin cord hord s log ok (legal_all _ _ HC) (legal_all _ _ HH) EB E).
 Qed.
+
+(* ------------------------------------------------------------------ sequences *)
+
+Lemma sequence_independent : forall tries pre b post,
+  store_sequence tries (pre ++ b :: post) =
+  store_sequence tries pre ++ run_bulk tries b :: store_sequence tries post.
+Proof. intros. unfold store_sequence. rewrite map_app. reflexivity. Qed.
+
+Lemma sequence_nth : forall tries bs i b r,
+  nth_error bs i = Some b -> nth_error (store_sequence tries bs) i = Some r -> r = run_bulk tries b.
+Proof.
+  intros tries bs i b r Hb Hr. unfold store_sequence in Hr.
+  rewrite (map_nth_error (run_bulk tries) _ _ Hb) in Hr. congruence.
+Qed.
+
+Lemma ack_sound_sequence : forall tries bs i b s log,
+  1 <= tries -> nth_error bs i = Some b ->
+  nth_error (store_sequence tries bs) i = Some (s, log, true) ->
+  AckT (bi_pay b) Cold (bi_cin b) log /\ AckT (bi_pay b) Hot (bi_hin b) log.
+Proof.
+  intros tries bs i b s log Ht Hb Hr. apply (sequence_nth _ _ _ _ _ Hb) in Hr.
+  unfold run_bulk in Hr. symmetry in Hr. eapply ack_sound; eauto.
+Qed.
+
+Lemma fail_reported_sequence : forall tries bs i b s log ok,
+  1 <= tries -> nth_error bs i = Some b ->
+  nth_error (store_sequence tries bs) i = Some (s, log, ok) ->
+  (~ FullT (cold s) \/ ~ FullT (hot s)) -> ok = false.
+Proof.
+  intros tries bs i b s log ok Ht Hb Hr. apply (sequence_nth _ _ _ _ _ Hb) in Hr.
+  unfold run_bulk in Hr. symmetry in Hr. eapply fail_reported; eauto.
+Qed.
+
+Lemma model_spec_ok_sequence : forall tries bs,
+  1 <= tries ->
+  forallb (fun b => forallb (legal_order (length (bi_cin b))) (bi_cord b)
+                    && forallb (legal_order (length (bi_hin b))) (bi_hord b)) bs = true ->
+  all2 (fun b m => let '(_, log, ok) := m in
+                   spec_ok tries (bi_pay b) (bi_cin b) (bi_hin b) (bi_cancel b) ok log)
+       bs (store_sequence tries bs) = true.
+Proof.
+  intros tries bs Ht. induction bs as [|b r IH]; simpl; intros H; auto.
+  apply andb_true_iff in H as [Hb Hr]. apply andb_true_iff in Hb as [HC HH].
+  rewrite (IH Hr), andb_true_r.
+  pose proof (model_spec_ok tries (bi_pay b) (bi_cin b) (bi_hin b) (bi_cord b) (bi_hord b) (bi_cancel b) Ht HC HH) as M.
+  unfold run_bulk. destruct (store_documents tries (bi_pay b) (bi_cin b) (bi_hin b) (bi_cord b) (bi_hord b) (bi_cancel b)) as [[s log] ok].
+  exact M.
+Qed.
+
+(* the variant that reuses a failed bulk's status: hot 1x2, bulk 0 — replica 0 accepts, replica 1
+   is down for all three tries (fails, correctly, leaving the bit of replica 0 set); bulk 1 — both
+   replicas healthy: acknowledged although replica 0 never got payload 1 *)
+Definition v0_seq : list bulk_in :=
+  [mkBI 0 [] [([], [[OOk]; [OErr; OErr; OErr]])] [] [] None;
+   mkBI 1 [] [([], [[OOk]; [OOk]])] [] [] None].
+
+Lemma status_carried_over_v0_refuted :
+  exists s log, nth_error (store_sequence_v0 3 v0_seq) 1 = Some (s, log, true) /\
+                log = [mkVisit Hot 0 false [mkCall 1 OOk 1]] /\
+                ~ AckT 1 Hot [([], [[OOk]; [OOk]])] log.
+Proof.
+  eexists. eexists. split; [vm_compute; reflexivity|]. split; [reflexivity|].
+  intros H. apply spec_ack_iff in H. vm_compute in H. discriminate.
+Qed.
+
+Lemma status_fresh_on_same_sequence :
+  exists s, nth_error (store_sequence 3 v0_seq) 1 =
+            Some (s, [mkVisit Hot 0 false [mkCall 0 OOk 1; mkCall 1 OOk 1]], true).
+Proof. eexists. vm_compute. reflexivity. Qed.
